@@ -1385,7 +1385,11 @@ func (x *Exec) convert(s *State, fr *Frame, v Value, from, to types.Type, pos to
 			if p, ok := v.(*PtrV); ok && p.Prov == "uint8" {
 				return &Scalar{T: x.ctx.Share(Add64(x.ctx.UF("rgn$base", SBV64, p.Rgn), p.Off)), Ptr: p}
 			}
-			unsup("conversion of a non-byte unsafe.Pointer to uintptr")
+			// Any other pointer: its address is an unknown function of the pointer.
+			if p, ok := v.(*PtrV); ok {
+				return &Scalar{T: x.ctx.Share(x.ctx.UF("ptr$addr", SBV64, p.Rgn, p.Off))}
+			}
+			unsup("conversion of a non-pointer unsafe.Pointer value to uintptr")
 		case fb.Kind() == types.Uintptr && tb.Kind() == types.UnsafePointer:
 			// only the pattern unsafe.Pointer(uintptr(p) ± n) of the unsafe rules: the integer
 			// still carries the byte pointer it was computed from
